@@ -212,10 +212,13 @@ where
                                 }
                             }
                         }
-                        _ => panic!("Invalid value {:?} in constraint", val),
+                        // A variable of the constraint has been unified with a value that is
+                        // not an integer: the constraint cannot hold.
+                        _ => return Err(()),
                     }
                 }
-                _ => panic!("Invalid LTerm  {:?} in constraint", ywalk),
+                // ... or with a list or compound term
+                _ => return Err(()),
             }
         }
 
